@@ -144,6 +144,7 @@ def cone(cons, t):
 
 
 CTX: Ctx | None = None
+FLOAT_HOOK = None      # called with the SymReal whenever float() is taken (concolic printing)
 
 
 def ctx() -> Ctx:
@@ -446,6 +447,8 @@ class SymReal:
         return bool(self != 0)
 
     def __float__(self):
+        if FLOAT_HOOK is not None and self.shadow is not None:
+            FLOAT_HOOK(self)
         if self.shadow is None:
             v = _num_value(z3.simplify(self.t))
             if v is not None:
